@@ -11,7 +11,7 @@ pub fn prop() -> Prop {
     Prop {
         id: "C08",
         level: "model_checking",
-        rule: "all streams of <=4 (thorough <=6) rows {k,v,id} over the keys {a,b,c,absent} (ids make tied rows distinguishable) plus every stream of <=3 rows repeated cyclically to 17 and 40 rows, and streams of 257 and 1030 rows (S,T around 255..257 and the end) x 14 pipelines (none; sort on selected names; a selection under which rows repeat; 1,2,3 sort keys with ties in both directions; unique; unique+sort on a selected name; filter; filter+sort; split; split+sort) x {no grouping, --group-by, --merge} x S in 0..3 (thorough 0..6; long: 0,1,5,16,17,39,40,41) x T in {absent,0..3} (thorough 0..6; long: 0,1,5,16,17,40,41); for half of the (S,T) the same input is also given as two and three files; non-trivial = the cut S+T falls inside the unlimited result and a tie straddles it, or a grouping stage follows the limiter; distinct by construction; streams of 2..3 (thorough 4) rows over 8 sort keys of other types (objects and arrays that differ only in member order, 1 and 1.0, null, a string) through every sorting pipeline; 10 (S,T) pairs at the edge of the 64-bit range (2^64-1 alone and together, sums that do not fit) through every pipeline",
+        rule: "all streams of <=4 (thorough <=6) rows {k,v,id} over the keys {a,b,c,absent} (ids make tied rows distinguishable) plus every stream of <=3 rows repeated cyclically to 17 and 40 rows, and streams of 257 and 1030 rows (S,T around 255..257 and the end) x 17 pipelines (rows that show &index and &index-in-file; --unique on a selection with a sort key that is not selected; none; sort on selected names; a selection under which rows repeat; 1,2,3 sort keys with ties in both directions; unique; unique+sort on a selected name; filter; filter+sort; split; split+sort) x {no grouping, --group-by, --merge} x S in 0..3 (thorough 0..6; long: 0,1,5,16,17,39,40,41) x T in {absent,0..3} (thorough 0..6; long: 0,1,5,16,17,40,41); for half of the (S,T) the same input is also given as two and three files; non-trivial = the cut S+T falls inside the unlimited result and a tie straddles it, or a grouping stage follows the limiter; distinct by construction; streams of 2..3 (thorough 4) rows over 8 sort keys of other types (objects and arrays that differ only in member order, 1 and 1.0, null, a string) through every sorting pipeline; 10 (S,T) pairs at the edge of the 64-bit range (2^64-1 alone and together, sums that do not fit) through every pipeline",
         explanation: "differential: the rows R of the same pipeline without --skip/--take (and without grouping) are obtained from the implementation; with the limits the output must be exactly R[S..S+T), and with grouping the single collection built from exactly those rows; every case is also compared with the reference pipeline (stable multi-key sort, first key most significant)",
         assumptions: COMMON_ASSUMPTIONS.to_vec(),
         guards: vec!["skip-plus-take-beyond-64-bits", "sort-keys-that-are-objects", "file-without-values-between-files", "command-line-respelled", "input-spread-over-files", "hundreds-of-rows", "cut-inside-a-tie", "limiter-before-grouper", "secondary-key-with-take", "take-zero", "skip-beyond-end", "more-rows-than-skip-plus-take-under-sort"],
@@ -59,6 +59,19 @@ fn pipelines() -> Vec<Pl> {
         mk("select-k+sort-selected", &|c| {
             c.selects = vec![(p(".k"), "k".into()), (p(".id"), "id".into())];
             c.sorts = vec![s("/k/", false, ""), s("/id/", true, "DESC")]
+        }, false),
+        // rows that show their own position in the input
+        mk("select-position", &|c| c.selects = vec![(p("&index"), "i".into()), (p("&index-in-file"), "j".into()), (p(".k"), "k".into())], false),
+        // rows that --unique calls equal carry different sort keys (the key is not among the selected values)
+        mk("unique-on-k+sort-id-desc", &|c| {
+            c.selects = vec![(p(".k"), "k".into())];
+            c.unique = true;
+            c.sorts = vec![s(".id", true, "DESC")]
+        }, false),
+        mk("unique-on-k+sort-v,id", &|c| {
+            c.selects = vec![(p(".k"), "k".into())];
+            c.unique = true;
+            c.sorts = vec![s(".v", false, ""), s(".id", true, "desc")]
         }, false),
         mk("unique-on-k+sort-selected-desc", &|c| {
             c.selects = vec![(p(".k"), "k".into())];
@@ -195,7 +208,7 @@ fn explore(ctx: &mut Ctx, pl: &Pl, rows: &[V], ss: &[u64], ts: &[Option<u64>]) {
                     ok = false;
                 }
                 // the same input spread over two or three files gives the same result (the limits count rows of the run)
-                if inputs.len() >= 2 && (*s > 0 || t.is_some()) && s.wrapping_add(t.unwrap_or(0)) % 2 == 1 {
+                if inputs.len() >= 2 && pl.name != "select-position" && (*s > 0 || t.is_some()) && s.wrapping_add(t.unwrap_or(0)) % 2 == 1 {
                     let cutpoints: Vec<Vec<usize>> = if inputs.len() >= 3 { vec![vec![1], vec![1, 2]] } else { vec![vec![1]] };
                     for cuts in cutpoints {
                         let mut files: Vec<(String, Vec<u8>)> = Vec::new();
